@@ -234,6 +234,24 @@ def po2_cfgs(tier):
           continue
         cfgs.append({"cls": "quantized_relu_po2",
                      "kw": {"bits": b, "max_value": mv, "negative_slope": sl}})
+  # quadratic approximation: codes are the even powers of two of the range
+  quad = []
+  for b in ([3, 4, 5, 6] if tier == "quick" else [3, 4, 5, 6, 7]):
+    for mv in [None, 1.0, 4.0, 0.25, 16.0]:
+      quad.append({"cls": "quantized_po2",
+                   "kw": {"bits": b, "max_value": mv, "quadratic_approximation": True}})
+  for b in ([2, 3, 4, 5] if tier == "quick" else [2, 3, 4, 5, 6]):
+    for mv in [None, 1.0, 4.0]:
+      for sl in [0.0, 0.5]:
+        quad.append({"cls": "quantized_relu_po2",
+                     "kw": {"bits": b, "max_value": mv, "negative_slope": sl,
+                            "quadratic_approximation": True}})
+  for c in quad:
+    try:
+      po2_model(c)
+    except ValueError:
+      continue
+    cfgs.append(c)
   return cfgs
 
 
@@ -247,10 +265,22 @@ def po2_model(cfg):
   if eb < 0:
     raise ValueError("no exponent bits")
   emin, emax = -2 ** eb, 2 ** eb - 1
+  quad = bool(kw.get("quadratic_approximation"))
+  if quad:
+    # docstring: "forces the exponent to be an even number"; the largest
+    # exponent is rounded down to even.  Lattice = {2^e : e even, emin<=e<=emax}.
+    if eb < 1:
+      raise ValueError("quadratic mode needs an even lowest exponent")
+    emax = 2 * (emax // 2)
+    if mv is not None:
+      e_mv = math.log2(float(mv))
+      if e_mv != int(e_mv) or int(e_mv) % 2 or float(mv) > 2.0 ** emax or float(mv) < 2.0 ** emin:
+        raise ValueError("max_value must be an even power of two inside the range")
   top = 2.0 ** emax if mv is None else min(2.0 ** emax, float(mv))
   return {"emin": emin, "emax": emax, "bot": 2.0 ** emin, "top": top,
           "slope": float(kw.get("negative_slope", 0.0)),
-          "relu": cfg["cls"] == "quantized_relu_po2"}
+          "relu": cfg["cls"] == "quantized_relu_po2", "quad": quad,
+          "mv_is_top": mv is not None and float(mv) == top}
 
 
 def po2_variant(cfg):
@@ -258,6 +288,8 @@ def po2_variant(cfg):
   v = "maxv" if kw.get("max_value") is not None else "plain"
   if kw.get("negative_slope"):
     v += "+leaky"
+  if kw.get("quadratic_approximation"):
+    v += "+quad"
   return v
 
 
@@ -275,6 +307,10 @@ def po2_ref(cfg, xs):
   mant, ex = np.frexp(a)            # a = mant*2^ex, mant in [0.5,1)
   lo = np.ldexp(0.5, ex)            # 2^(ex-1) <= a
   hi = np.where(mant == 0.5, lo, 2.0 * lo)
+  if m["quad"]:
+    f = ex - 1                       # floor(log2 a)
+    lo = np.ldexp(1.0, f - (f % 2))  # largest even power of two <= a
+    hi = np.where(a == lo, lo, 4.0 * lo)
   hi = np.minimum(hi, 2.0 ** m["emax"])
   return {"m": m, "c": sgn * a, "a": a, "lo": lo, "hi": hi, "sgn": sgn,
           "mag": mag}
@@ -287,6 +323,16 @@ def po2_inv(cfg, t):
   out = []
   for sgn, e, fr in t:
     v = 2.0 ** e * (1.0 + fr)
+    if m["quad"]:
+      # quadratic mode: magnitudes stay inside [lowest code, top] (beyond them the
+      # library clips the HALF exponent to [min_exp, max_exp] before doubling it,
+      # i.e. to a range the docstring does not describe - C03's subject); above
+      # top only where max_value does the clipping
+      v = min(max(v, m["bot"], PO2_LOWEST), m["top"] * 256.0 if m["mv_is_top"] else m["top"])
+      if sgn < 0 and m["relu"] and m["slope"]:
+        v = v / m["slope"]
+      out.append(float(F32(sgn * v)))
+      continue
     if sgn < 0 and m["relu"] and m["slope"]:
       v = v / m["slope"]
     v = max(min(v, m["top"] * 256.0 / (m["slope"] or 1.0)), PO2_LOWEST)
